@@ -58,6 +58,7 @@ type World struct {
 	PkgOfFile map[*ContractFile]string
 	Ghosts    map[string]*GhostDecl
 	Unresolved []string
+	UnresolvedFC []*FuncContract
 	Sigs      map[*FuncContract]*sigInfo
 	specFns   map[string]*ssa.Function
 	TrustedPkgDir string
@@ -383,11 +384,20 @@ func (w *World) GenerateSpecs() error {
 				}
 				if fd == nil {
 					w.Unresolved = append(w.Unresolved, fmt.Sprintf("%s:%d func %s", cf.Path, fc.Line, fc.Key))
+					w.UnresolvedFC = append(w.UnresolvedFC, fc)
 					continue
 				}
 				si = &sigInfo{}
 				if closure != "" {
-					// parameters of the function literal are not named here; captured variables are
+					// parameters of the function literal first, then the captured variables named by the contract
+					lit := findFuncLit(fd, closure)
+					if lit == nil {
+						w.Unresolved = append(w.Unresolved, fmt.Sprintf("%s:%d func %s", cf.Path, fc.Line, fc.Key))
+						w.UnresolvedFC = append(w.UnresolvedFC, fc)
+						fc.Dead = true
+						continue
+					}
+					si.params = append(si.params, fieldListDecls(fset, lit.Type.Params, "p", 0)...)
 					si.params = append(si.params, fc.FreeVars...)
 				}
 				if closure == "" {
@@ -698,9 +708,13 @@ func LoadWorld(repo string, patterns []string) (*World, error) {
 				}
 				continue
 			}
+			if fc.Dead {
+				continue
+			}
 			fn := lookupFunc(prog, sp, fc.Key)
 			if fn == nil {
 				w.Unresolved = append(w.Unresolved, fmt.Sprintf("%s:%d func %s", cf.Path, fc.Line, fc.Key))
+				w.UnresolvedFC = append(w.UnresolvedFC, fc)
 				continue
 			}
 			if prev := w.ByFn[fn]; prev != nil {
@@ -797,4 +811,33 @@ func (w *World) nonNilDynamic(t types.Type) bool {
 		}
 	}
 	return false
+}
+
+
+// findFuncLit locates the function literal named by a go/ssa closure suffix such as "$1" or "$2$1"
+// (n-th literal in source order, nested literals counted inside their parent).
+func findFuncLit(fd *ast.FuncDecl, suffix string) *ast.FuncLit {
+	var node ast.Node = fd.Body
+	var lit *ast.FuncLit
+	for _, part := range strings.Split(strings.TrimPrefix(suffix, "$"), "$") {
+		var idx int
+		fmt.Sscanf(part, "%d", &idx)
+		if node == nil || idx < 1 {
+			return nil
+		}
+		var lits []*ast.FuncLit
+		ast.Inspect(node, func(n ast.Node) bool {
+			if fl, ok := n.(*ast.FuncLit); ok {
+				lits = append(lits, fl)
+				return false // nested literals belong to this one
+			}
+			return true
+		})
+		if idx > len(lits) {
+			return nil
+		}
+		lit = lits[idx-1]
+		node = lit.Body
+	}
+	return lit
 }
